@@ -90,7 +90,8 @@ def dispatchC12 : List Str → Option (List Str)
       | [] => some ["bad-request".toList]
     else if cmd == "c12.variant".toList then
       some ["ok".toList, (if Gen.C12.fileIterSorted then "repaired".toList else "asIs".toList),
-            (if Gen.C12.usesIterSorted then "sorted".toList else "unsorted".toList)]
+            (if Gen.C12.usesIterSorted then "sorted".toList else "unsorted".toList),
+            (if Gen.C12.countKeyLower then "lower".toList else "asWritten".toList)]
     else if cmd == "c12.writeout".toList then
       -- c12.writeout <out> <nInit> init... then groups of writes separated by a field "|" : path content ...
       match args with
